@@ -571,6 +571,35 @@ func evalC13Collide(c c13Collide, o *Obs) error {
 		if setVals[vals[pr.b]] {
 			continue
 		}
+		// both colliding items as MEMBERS of one set: each is found alone and among non-members by every strategy
+		if c.N >= 2 {
+			both := append([][]byte{b}, items[:c.N-1]...)
+			f2, err := gcs.BuildGCSFilter(c.P, c.M, key, both)
+			if err != nil {
+				return fmt.Errorf("BuildGCSFilter failed: %v", err)
+			}
+			o.Class("C13:two-members-congruent-mod-2^32")
+			for _, m := range [][]byte{items[0], b} {
+				for _, pad := range []int{0, c.N} {
+					query := [][]byte{m}
+					for k := 0; k < pad; k++ {
+						query = append(query, derivedItem(c.Seed+11, k))
+					}
+					for _, st := range []struct {
+						name string
+						fn   func([16]byte, [][]byte) (bool, error)
+					}{{"MatchAny", f2.MatchAny}, {"ZipMatchAny", f2.ZipMatchAny}, {"HashMatchAny", f2.HashMatchAny}} {
+						if got, err := st.fn(key, query); err != nil || !got {
+							return fmt.Errorf("filter(P=%d,M=%d,N=%d,key=%x) with members %x and %x whose reduced values %#x and %#x agree modulo 2^32: %s(query of %d items incl. member %x) = %v,%v",
+								c.P, c.M, c.N, key, items[0], b, vals[pr.a], vals[pr.b], st.name, len(query), m, got, err)
+						}
+					}
+				}
+				if got, err := f2.Match(key, m); err != nil || !got {
+					return fmt.Errorf("filter(P=%d,M=%d,N=%d,key=%x): member %x not matched (%v,%v)", c.P, c.M, c.N, key, m, got, err)
+				}
+			}
+		}
 		f, err := gcs.BuildGCSFilter(c.P, c.M, key, items)
 		if err != nil {
 			return fmt.Errorf("BuildGCSFilter failed: %v", err)
